@@ -21,7 +21,11 @@ class C05(Prop):
                            "sys.stdout"]}
 
     def generate(self, rng, tier, idx):
-        plan = gen_session(rng, tier, peer_mode="tagged", nsolves=rng.choice([1, 1, 2, 3]))
+        w = None
+        if rng.random() < 0.25:
+            w = {"bcd": 3, "gd": 1, "pgd": 1, "linear": 1}     # partitions and class LMIs: where lists persist
+        plan = gen_session(rng, tier, peer_mode="tagged", nsolves=rng.choice([1, 1, 2, 3] if w is None else [2, 3]),
+                           faults=0.45 if w is None else 0.8, weights=w)
         plan["opts"] = {"oracles": ["delivery", "immut", "alg"]}
         return plan
 
